@@ -17,5 +17,5 @@ go test -mod=mod -vet=off -count=1 -run 'TestSeeded' $pkgs > $out/demo_with.log 
 git diff > /tmp/mut_${tag}_keep.diff; git checkout -- .   # (git stash is shared between worktrees: not used)
 go test -mod=mod -vet=off -count=1 -run 'TestSeeded' $pkgs > $out/demo_without.log 2>&1; echo "demo without change: exit $?" | tee -a $log
 git apply /tmp/mut_${tag}_keep.diff; rm -f /tmp/mut_${tag}_keep.diff
-go test -mod=mod -vet=off -count=1 -timeout 25m -skip 'TestSeeded' ./... > $out/suite_with.log 2>&1; echo "suite with change (Seeded skipped): exit $?" | tee -a $log
+go test -mod=mod -vet=off -count=1 -timeout ${SUITE_TIMEOUT:-25m} -skip 'TestSeeded' ./... > $out/suite_with.log 2>&1; echo "suite with change (Seeded skipped): exit $?" | tee -a $log
 rm -f /tmp/mut_${tag}_cur.diff
